@@ -32,10 +32,38 @@ def many_clobbers(rng):
     return "\n".join(L) + "\n"
 
 
+def diamonds(rng):
+    """Registers without a valid value (never assigned; caller-saved after a call) read on BOTH
+    arms of a branch at different distances: the single reported use must always be the nearest
+    one, whatever order the successors are visited in."""
+    L = ["main:"]
+    lbl = 0
+    for _ in range(rng.randrange(1, 4)):
+        lbl += 1
+        bad = rng.choice(["t0", "t1", "t2", "t3", "t4"])
+        after_call = rng.random() < 0.5
+        if after_call:
+            L += ["    mv a0, a4", "    jal helper"]
+        pad_a, pad_b = rng.sample([0, 1, 2, 3, 4], 2)       # different distances
+        L += [f"    {rng.choice(['beq', 'bne', 'blt'])} a0, zero, near{lbl}"]
+        for k in range(pad_a):
+            L += [f"    addi a{2 + k % 3}, a0, {k + 1}"]
+        L += [f"    add a4, a0, {bad}", f"    j join{lbl}", f"near{lbl}:"]
+        for k in range(pad_b):
+            L += [f"    addi a{5 + k % 2}, a0, {k + 1}"]
+        L += [f"    add a4, a0, {bad}", f"join{lbl}:"]
+    L += ["    mv a0, a4", "    li a7, 1", "    ecall", "    li a7, 10", "    ecall",
+          "helper:", "    addi a0, a0, 1", "    ret"]
+    return "\n".join(L) + "\n"
+
+
 def programs(rng, n):
     out = []
     for _ in range(n):
-        if rng.random() < 0.35:
+        k = rng.random()
+        if k < 0.2:
+            out.append(diamonds(rng))
+        elif k < 0.5:
             out.append(many_clobbers(rng))
         else:
             s, _ = prog.program(rng, sloppy=rng.choice([0.1, 0.3, 0.5]), multi_ret=rng.random() < 0.3)
